@@ -102,6 +102,21 @@ func c03Scenarios(tier string) []*Scenario {
 			sc.Ordered = ordered
 		}
 	}
+	// 13. a configured shutdown command that fails or hangs: the process is killed all the same
+	for _, beh := range []string{"fail", "hang"} {
+		for _, ordered := range []bool{false, true} {
+			id := "stop-command-" + beh
+			if ordered {
+				id += "-ordered"
+			}
+			sc := add(id, "a has a shutdown.command that "+beh+"s (time-out 2 s); b depends on a",
+				projectYAML(nil, PC{Name: "a", Lines: []string{"shutdown:", "  command: \"stop-a\"", "  timeout_seconds: 2"}},
+					PC{Name: "b", Deps: map[string]string{"a": "process_started"}}),
+				map[string]*ProcScript{"a": daemon, "b": daemon}, 2, shut)
+			sc.Aux = map[string][]string{"stop-a": {beh}}
+			sc.Ordered = ordered
+		}
+	}
 	if tier == "thorough" {
 		add("three", "three independent processes, one restarting", projectYAML(nil, PC{Name: "a"}, PC{Name: "b", Restart: "always"}, PC{Name: "c", Deps: map[string]string{"a": "process_started"}}),
 			map[string]*ProcScript{"a": daemon, "b": {Launches: [][]Action{{Exit(0)}, {}}}, "c": daemon}, 2, shut)
